@@ -40,13 +40,20 @@ def register(reg):
 DEPENDS = [
     (("finam.schedule._find_dependencies", "Composition._update_recursive", "Composition.run", "finam.schedule._get_start_time"),
      ("C01", "C02", "C03", "C04", "C05", "C13", "C20")),
-    (("finam.adapters.time.Delay", "finam.sdk.adapter.TimeDelayAdapter", "finam.adapters.time.TimeDelayAdapter"), ("C01", "C02", "C04", "C09", "C13")),
+    (("finam.adapters.time.Delay", "finam.sdk.adapter.TimeDelayAdapter", "finam.adapters.time.TimeDelayAdapter"), ("C01", "C02", "C03", "C04", "C05", "C06", "C09", "C13", "C20")),
     (("finam.sdk.input.Input.", "finam.sdk.input.CallbackInput."), ("C05", "C07", "C08", "C15", "C17", "C20")),
     (("finam.data.tools.info.Info.",), ("C05", "C06", "C07", "C15", "C17", "C18")),
     (("StructuredGrid.compatible_with", "StructuredGrid.__eq__", "grid_spec.NoGrid."), ("C07", "C15")),
     (("finam.data.tools.mask.masks_", "finam.data.tools.mask.mask_specified"), ("C07", "C18")),
     (("finam.data.tools.units.",), ("C07", "C08", "C17")),
     (("finam.sdk.output.Output.", "finam.sdk.output.CallbackOutput."), ("C01", "C03", "C05", "C06", "C08", "C09", "C10", "C20")),
+    # the buffering adapters inherit the spill helpers of Output
+    (("finam.sdk.output.Output._pack", "finam.sdk.output.Output._unpack", "finam.sdk.output.Output._check_", "finam.sdk.output.Output._clear_data",
+      "finam.sdk.output.Output.__init__", "finam.sdk.output.Output.finalize"), ("C11", "C12", "C13")),
+    # mask comparison goes through the canonical layout of the grids
+    (("StructuredGrid.to_canonical", "StructuredGrid.from_canonical", "StructuredGrid.get_transform_to"), ("C07", "C08", "C18")),
+    # the components finam ships: what the scheduling proofs assume about IComponent.update is checked on them
+    (("finam.components.",), ("C01", "C02", "C03", "C20")),
     (("finam.adapters.time.", "finam.adapters.time_integration.", "finam.sdk.adapter.Adapter."), ("C01", "C06", "C09", "C10", "C11", "C12", "C13")),
     # validation guards the premises of the data-flow properties (single consumer below a buffering adapter, connected inputs ...)
     (("finam.schedule._check_", "Composition._validate_composition"), ("C01", "C03", "C05", "C06", "C09", "C10", "C11", "C12", "C13", "C19", "C20")),
